@@ -63,7 +63,7 @@ def ident_payloads(tier: str, rnd: random.Random) -> list[bytes]:
     return out
 
 
-def ident_program(kind: str, payload: bytes, fam: str = "ES") -> dict:
+def ident_program(kind: str, payload: bytes, fam: str = "ES", default: int = 0) -> dict:
     if kind == "discover":
         sim = {"aa55": {"info": list(payload)}, "silent": [[0, 65535]]}
         calls = [{"api": "goodwe.discover", "args": ["inv0"], "kw": {"retries": 0, "timeout": 1}}]
@@ -73,9 +73,11 @@ def ident_program(kind: str, payload: bytes, fam: str = "ES") -> dict:
     else:
         first = 35000 if fam == "ET" else 30001
         regs = {first + i: int.from_bytes(payload[2 * i:2 * i + 2].ljust(2, b"\0"), "big") for i in range(40)}
-        sim = {"regs": regs}
+        # every other register the identification sequence may fall back to (model name, firmware blocks) reads `default`
+        sim = {"regs": regs, "default": default}
         calls = [{"api": "goodwe.connect", "args": ["inv0"], "kw": {"family": fam, "retries": 0}}]
-    return {"inv": [{"family": None, "sim": sim}], "calls": calls, "case": {"case": "call", "what": kind + ":" + fam}}
+    return {"inv": [{"family": None, "sim": sim}], "calls": calls,
+            "case": {"case": "call", "what": kind + ":" + fam + (f":unset={default:#06x}" if default else "")}}
 
 
 def run_call(prog: dict) -> dict:
@@ -161,6 +163,9 @@ def extend(run: Run, prop: str, tier: str, rnd: random.Random) -> None:
             if len(iprogs) % 3 == 0:
                 iprogs.append(ident_program("connect", pl, "ET"))
                 iprogs.append(ident_program("connect", pl, "DT"))
+                d = (0xFFFF, 0x80C3, 0x00E9, 0x7F1F)[len(iprogs) % 4]
+                iprogs.append(ident_program("connect", pl, "ET", d))
+                iprogs.append(ident_program("connect", pl, "DT", d))
         cases += engine.parallel_map("harness.checks_api", "run_call", iprogs, procs=16, chunk=20)
     else:
         grid = [(2, 1), (3, 0), (1, 4), (0.5, 2)] if quick else [(2, 1), (3, 0), (1, 4), (0.5, 2), (1, 3), (5, 5), (0.25, 1), (10, 0)]
